@@ -188,7 +188,8 @@ func seedMain(js string) {
 	if err != nil {
 		fail(err)
 	}
-	cfg.CustomStorage = prov
+	fprov := &faultProvider{inner: prov}
+	cfg.CustomStorage = fprov
 	cfg.ReadCacheBlockSize = sc.CB
 	cfg.ReadCacheSize = sc.CacheSize
 	cfg.ReadCacheTTL = time.Duration(sc.TTLms) * time.Millisecond
@@ -242,7 +243,7 @@ func seedMain(js string) {
 	}
 	rd, _ := json.Marshal(map[string]any{"port": snap.Port, "port2": port2, "have": snap.Have, "status": snap.Status})
 	fmt.Printf("READY %s\n", rd)
-	io.Copy(io.Discard, os.Stdin) // the parent closes our stdin when the scenario is over
+	childCommands(fprov) // returns when the parent closes our stdin (the scenario is over)
 	cleanup()
 	os.Exit(0)
 }
@@ -278,6 +279,9 @@ type scen struct {
 	addr2   string
 	stats   map[string]int
 	grow    *growState // scenario family "grow" (grow.go): the session under test downloads while it uploads
+	fault   *faultState // scenario family "fault" (fault.go): the storage is cut / fails behind the client's back
+	childIn io.Writer
+	ack     chan string
 }
 
 func (s *scen) emit(e ev) {
@@ -444,6 +448,9 @@ func (l *leecher) send(op string, m vh.Msg) bool {
 	}
 	if op == "Other" {
 		e["kind"] = "tx-" + m.Name()
+	}
+	if op == "PeerAF" {
+		e["i"] = sat(m.Index)
 	}
 	s.emit(e)
 	s.mu.Unlock()
@@ -657,6 +664,10 @@ func (l *leecher) run(wg *sync.WaitGroup) {
 		l.runGrow()
 		return
 	}
+	if s.style == "fault" {
+		l.runFault()
+		return
+	}
 	g := newReqGen(s.tor, int(s.sc.CB), l.rng)
 	rng := l.rng
 	held := []int{}
@@ -782,8 +793,20 @@ func (l *leecher) run(wg *sync.WaitGroup) {
 				invalidBudget--
 				l.hangup()
 			}
+		case r3on && r >= 96 && l.fast:
+			// the peer's OWN allowed-fast message (it grants rain a download, and the peer nothing), then a request for it
+			p := held[rng.Intn(len(held))]
+			s.mu.Lock()
+			s.count("tx_peeraf")
+			s.mu.Unlock()
+			l.send("PeerAF", vh.Msg{ID: vh.MsgAllowedFast, Index: uint32(p)})
+			bb, nn := g.validIn(p)
+			request(uint32(p), bb, nn)
 		default: // a burst of valid requests
 			burst := 1 + rng.Intn(6)
+			if s.style == "contend" {
+				burst = 12 + rng.Intn(30)
+			}
 			if s.style == "flood" {
 				burst = 8 + rng.Intn(3*s.sc.MaxReqIn+8)
 			}
@@ -903,6 +926,8 @@ func runScenario(s *scen, self string) error {
 	jsDir, _ := json.Marshal(withDir)
 	cmd := exec.Command(self, "seed", string(jsDir))
 	stdin, _ := cmd.StdinPipe()
+	s.childIn = stdin
+	s.ack = make(chan string, 4)
 	stdout, _ := cmd.StdoutPipe()
 	var stderr bytes.Buffer
 	cmd.Stderr = &stderr
@@ -915,7 +940,18 @@ func runScenario(s *scen, self string) error {
 		br := bufio.NewReader(stdout)
 		line, _ := br.ReadString('\n')
 		ready <- line
-		io.Copy(io.Discard, br)
+		for {
+			ln, err := br.ReadString('\n')
+			if strings.HasPrefix(ln, "FAULTED") {
+				select {
+				case s.ack <- ln:
+				default:
+				}
+			}
+			if err != nil {
+				break
+			}
+		}
 		exited <- cmd.Wait()
 	}()
 	var line string
@@ -958,6 +994,9 @@ func runScenario(s *scen, self string) error {
 		"maxblk": maxBlk, "maxq": s.sc.MaxReqIn, "cb": int(s.sc.CB), "nconn": s.maxConn, "layout": s.tor.Name, "style": s.style,
 		"cachesize": int(s.sc.CacheSize), "ttlms": s.sc.TTLms, "nleech": s.nleech, "rainhave": rd.Have, "unit": s.sc.Unit,
 		"cfg": string(js), "seed": int(s.seed), "drvseed": int(s.drvSeed), "reqs": s.nreq0}
+	if s.fault != nil {
+		init["fault"] = s.fault.desc()
+	}
 	if s.grow != nil {
 		init["feed"], init["never"], init["feeder"], init["late"], init["fsets"] = s.grow.feed, s.grow.never, s.grow.feeder, s.grow.late, s.grow.fsets
 	}
@@ -1031,7 +1070,13 @@ func makeScenario(id int, seed int64, nreq int) *scen {
 		MaxReqIn: 250, Unchoked: 3, Optimistic: 1, AFSet: 10}
 	s := &scen{id: id, sc: sc, style: style, nleech: 1, nreq: nreq, maxConn: 48, seed: seed*1000 + int64(id), stats: map[string]int{},
 		drvSeed: seed, nreq0: nreq}
-	if id >= growFirstID {
+	if id >= contendFirstID {
+		style = "contend"
+		makeContend(s, rng)
+	} else if id >= faultFirstID {
+		style = "fault"
+		makeFault(s, rng)
+	} else if id >= growFirstID {
 		style = "grow"
 		makeGrow(s, rng)
 	}
@@ -1121,6 +1166,9 @@ func makeScenario(id int, seed int64, nreq int) *scen {
 	}
 	if style == "grow" {
 		s.fastOf[0] = true
+	}
+	if s.fault != nil {
+		s.fault.plan(s, rng)
 	}
 	s.name = fmt.Sprintf("%s/cb%d/%s/cs%d/ttl%d", style, cb, s.tor.Name, s.sc.CacheSize, s.sc.TTLms)
 	return s
@@ -1515,7 +1563,11 @@ func cacheMain(args []string) {
 		w.Write(b)
 		w.WriteByte('\n')
 	}
-	for k := 0; k < *n; k++ {
+	extra := 0
+	if r3on {
+		extra = max(2, *n/3)
+	}
+	for k := 0; k < *n+extra; k++ {
 		cb := []int{8, 64, 4096}[rng.Intn(3)]
 		cc := CacheCfg{CB: cb, PLen: cb*3 + rng.Intn(cb), Readers: 2 + rng.Intn(6), Parallel: uint(1 + rng.Intn(2)), DelayUs: []int{0, 50, 300}[rng.Intn(3)],
 			Ms: *ms, Seed: *seed*1000 + int64(k)}
@@ -1530,6 +1582,18 @@ func cacheMain(args []string) {
 		case 2: // expiry pressure
 			cc.CacheSize = 1 << 20
 			cc.TTLus = 200 + rng.Intn(2000)
+		}
+		if k >= *n {
+			// round 3: many writers share a cache that is smaller than their working set (8-12 readers over 8-16 blocks, room
+			// for 2-3): every load evicts an entry that another reader may just have been handed
+			cb = []int{64, 4096, 16384}[rng.Intn(3)]
+			cc.CB = cb
+			cc.PLen = cb*(8+rng.Intn(9)) - rng.Intn(cb)
+			cc.Readers = 8 + rng.Intn(5)
+			cc.Parallel = uint(1 + rng.Intn(4))
+			cc.DelayUs = []int{0, 0, 20}[rng.Intn(3)]
+			cc.CacheSize = int64(cb) * int64(2+rng.Intn(2))
+			cc.TTLus = []int{60e6, 3000}[rng.Intn(2)]
 		}
 		js, _ := json.Marshal(cc)
 		emit(ev{"op": "Init", "kind": "cache", "np": 1, "plens": []int{cc.PLen}, "have": []int{0}, "maxblk": maxBlk, "maxq": 0, "cb": cc.CB, "nconn": 0,
